@@ -35,7 +35,10 @@ def build(repo, subs):
     header = ("use std::iter;\nuse std::ops::{Range, RangeBounds};\nuse vstd::collections::{BTreeMap, HashSet};\n"
               "use roaring::{MultiOps, RoaringBitmap, RoaringTreemap};\nuse crate::address::RowAddress;\n"
               "use vnd::io::{Read, Write};\nuse vnd::io::byteorder::{self, ReadBytesExt, WriteBytesExt};\n"
-              "#[derive(Debug)]\npub enum Error { Io }\nimpl From<vnd::io::Error> for Error { fn from(_: vnd::io::Error) -> Self { Self::Io } }\n"
+              "// error payloads are irrelevant here: format!/location! are shadowed by cheap stand-ins, Error is unit-like\n"
+              "macro_rules! format { ($($t:tt)*) => { String::new() } }\nmacro_rules! location { () => { () } }\n"
+              "#[derive(Debug)]\npub enum Error { Io, Other }\nimpl From<vnd::io::Error> for Error { fn from(_: vnd::io::Error) -> Self { Self::Io } }\n"
+              "impl Error {\n    pub fn io<S>(_m: S, _l: ()) -> Self { Self::Io }\n    pub fn invalid_input<S>(_m: S, _l: ()) -> Self { Self::Other }\n    pub fn corrupt_file<P, S>(_p: P, _m: S, _l: ()) -> Self { Self::Other }\n}\n"
               "pub type Result<T> = std::result::Result<T, Error>;\n\n")
     n = body.count("crate::Result")
     if n:
